@@ -137,6 +137,7 @@ func cmdCheck(args []string) int {
 
 type Report struct {
 	Prop      string
+	w         *World
 	Funcs     []*FuncReport
 	Obls      []*Obligation
 	Failed    []*Obligation
@@ -152,7 +153,7 @@ type Report struct {
 }
 
 func runProperty(w *World, o *checkOpts) *Report {
-	rep := &Report{Prop: o.prop, ByBackend: map[string]int{}}
+	rep := &Report{Prop: o.prop, w: w, ByBackend: map[string]int{}}
 	fcs := w.functionsForProp(o.prop)
 	var runs []*FnVC
 	for _, fc := range fcs {
@@ -739,6 +740,31 @@ func (rep *Report) finish(o *checkOpts) int {
 			assumptions = append(assumptions, fmt.Sprintf("%s: partial correctness only (%d safety conditions assumed, not claimed)", fr.Name, fr.SafetyAssumed))
 		}
 	}
+	// contract-level assumptions: assume-at clauses, preconditions that partial callers assume, axioms,
+	// and the assumed (extern) contracts of the functions called from the functions under contract
+	for _, fc := range rep.w.functionsForProp(o.prop) {
+		for _, cl := range fc.Clauses {
+			lab := cl.Label
+			if cl.Kind == "assume" {
+				assumptions = append(assumptions, fmt.Sprintf("%s.%s: assumed at %s: %s: %s", fc.Pkg, fc.Name, cl.Anchor, lab, truncate(cl.Text, 240)))
+			}
+			if cl.Kind == "requires" && strings.HasPrefix(lab, "safety") {
+				assumptions = append(assumptions, fmt.Sprintf("%s.%s: precondition %s is assumed (not proved) at call sites inside partially verified callers: %s", fc.Pkg, fc.Name, lab, truncate(cl.Text, 240)))
+			}
+		}
+	}
+	for _, ax := range rep.w.cs.Axioms {
+		if !ax.Lemma {
+			assumptions = append(assumptions, "axiom "+ax.Name+" (assumed): "+truncate(ax.Text, 200))
+		}
+	}
+	var exts []string
+	for _, k := range sortedKeys(rep.w.cs.Funcs) {
+		if rep.w.cs.Funcs[k].Extern {
+			exts = append(exts, k)
+		}
+	}
+	assumptions = append(assumptions, fmt.Sprintf("%d extern (assumed) contracts are loaded; those used by this property's functions are the calls listed in foxvc/externs/*.spec and the `extern` blocks of /repo/**/verif_contracts*.go", len(exts)))
 	ev := map[string]interface{}{
 		"property_id": o.prop, "tier": o.tier, "seed": o.seed, "level": "proof",
 		"coverage": map[string]interface{}{
